@@ -69,6 +69,9 @@ pub fn exercise(text: &str) -> Option<(String, String)> {
     let mut st: HashMap<String, String> = HashMap::new();
     st.insert(key.to_string(), text.to_string());
     st.insert("other".to_string(), "# Other\n\n[n](n)\n".to_string());
+    // a note without a heading (no title) that includes `n`: with a text that includes `bare` or itself, `n` sits in
+    // a cycle of block references none of whose notes has a title
+    st.insert("bare".to_string(), "[back](n)\n".to_string());
     // loading
     let mut db_opt: Option<Database> = None;
     if let Some(p) = run("load (Database::new)", &mut || db_opt = Some(Database::new(st.clone(), true, MarkdownOptions::default()))) {
@@ -452,7 +455,7 @@ pub fn run(ctx: &Ctx, model: &mut Model, rep: &mut Report) {
             Err(e) => rep.fail(json!({"kind": "hang", "text": text, "what": e})),
         }
     }
-    for t in ["---\na: 1\n---\n\ntext\n\n---\nb: 2\n---\n\nmore\n", "---\na: 1\n---\n---\nb: 2\n---\n", "text\n\n---\nb: 2\n---\n\n---\nc: 3\n---\n", "\u{feff}---\na: 1\n---\n\n# T\n\n[x](other)\n", "> ---\n> a: b\n> ---\n", "- x\n\n  ---\n  t: 1\n  ---\n\n  y\n", "para\n\n---\nk: v\n---\n\ntail\n", "", "\n", "   ", "\r\n\r\n", "\u{feff}# bom\n", "---\n", "---\n---\n", "- \n", "> \n", "|\n", "#\n", "[", "]()", "[]()", "![]()", "``", "```", "<", "&#;", "\\", "a\\\nb", "\t- x", "1.\n2.\n"] {
+    for t in ["[self](n)\n", "[b](bare)\n", "intro\n\n[self](n)\n\n[b](bare)\n\n[o](other)\n", "- item\n\n  [self](n)\n\n> [b](bare)\n", "---\na: 1\n---\n\ntext\n\n---\nb: 2\n---\n\nmore\n", "---\na: 1\n---\n---\nb: 2\n---\n", "text\n\n---\nb: 2\n---\n\n---\nc: 3\n---\n", "\u{feff}---\na: 1\n---\n\n# T\n\n[x](other)\n", "> ---\n> a: b\n> ---\n", "- x\n\n  ---\n  t: 1\n  ---\n\n  y\n", "para\n\n---\nk: v\n---\n\ntail\n", "", "\n", "   ", "\r\n\r\n", "\u{feff}# bom\n", "---\n", "---\n---\n", "- \n", "> \n", "|\n", "#\n", "[", "]()", "[]()", "![]()", "``", "```", "<", "&#;", "\\", "a\\\nb", "\t- x", "1.\n2.\n"] {
         rep.case(t, false);
         match exercise_with_deadline(t) {
             Ok(None) => {}
